@@ -112,7 +112,8 @@ class CompGen:
             return self.pick([{"type": "integer"}, {"type": "boolean"}, {"type": "string", "enum": ["zzz"]} if "enum" in s
                               else {"type": "array", "items": {"type": "string"}}])
         if "enum" in s:
-            return self.pick([{"enum": ["zzz"]}, {"type": "integer"}])
+            # (an untyped enum against a disjoint TYPE leaves `enum: []` instead of never: finding C09-F9, curated)
+            return self.pick([{"enum": ["zzz"]}, {"type": "integer"} if "type" in s else {"enum": ["zzz", "www"]}])
         return self.pick([{"type": "string"}, {"type": "null"}])
 
     def obj(self, depth=0, nprops=None, names=None, typed=None):
@@ -173,7 +174,7 @@ class CompGen:
         defs = {}
         branches = []
         kind = rnd.random()
-        if kind < 0.2:
+        if kind < 0.28:
             return self.scalar_composition(n)
         # object compositions
         used = {}   # property name -> a schema seen for it
@@ -212,15 +213,78 @@ class CompGen:
                 self.tags.add("ref-member")
             else:
                 branches.append(o)
+        if any(isinstance(b, dict) and "oneOf" in b for b in branches):
+            for b in [resolve(defs, b) for b in branches]:
+                if isinstance(b, dict) and "oneOf" not in b:
+                    b["type"] = "object"            # C09-F10: an untyped object member next to scalar oneOf branches
+                    if n >= 3:
+                        b.pop("required", None)     # C09-F8 through a closed oneOf branch
+        if n >= 3:
+            # a name required by one member but not declared by a CLOSED member makes the conjunction unsatisfiable;
+            # with three members typify notices it only for some orders (finding C09-F8, curated witness): the
+            # random stream keeps that construct to two-member compositions
+            full = [resolve(defs, b) for b in branches]
+            closed = [b for b in full if isinstance(b, dict) and b.get("additionalProperties") is False]
+            for b in full:
+                if isinstance(b, dict) and b.get("required"):
+                    keep = [k for k in b["required"] if all(k in c.get("properties", {}) for c in closed)]
+                    if keep:
+                        b["required"] = keep
+                    else:
+                        del b["required"]
         if len({json.dumps(b, sort_keys=True) for b in branches}) < len(branches):
             self.tags.add("duplicate-branch")
         return {"defs": defs, "branches": branches, "tags": sorted(self.tags)}
+
+    # tuple-style `items`: position i draws from a chain of mutually compatible schemas (position 0 always
+    # explicit and compatible: a first-position conflict is finding C09-F5's class, curated only)
+    TUPLE_POS = [
+        [{"type": "integer"}, {}, {"type": ["integer", "string"]}, {"type": "integer"}],
+        [{"type": "string"}, {"type": "string", "enum": ["red", "green"]}, {"enum": ["red", "green", "x"]}, {},
+         {"type": ["string", "null"]}],
+        [{"type": "boolean"}, {}, {"type": ["boolean", "null"]}],
+    ]
+
+    def tuple_member(self, b):
+        rnd = self.rnd
+        r = rnd.random()
+        if b > 0 and r < 0.12:
+            self.tags.add("tuple-with-untupled-member")
+            return self.pick([{"type": "array"}, {"type": "array", "maxItems": rnd.randrange(1, 4)},
+                              {"type": "array", "minItems": rnd.randrange(0, 3)}])
+        if b > 0 and r < 0.22 and not self.tuple_closed:
+            # a single `items` schema next to tuples whose additionalItems is absent/true (else: C09-F7)
+            self.tags.add("tuple-with-single-items-member")
+            self.tuple_single = True
+            return {"type": "array", "items": self.pick([{}, {"type": ["integer", "string", "boolean", "null"]}])}
+        L = rnd.randrange(1, 4)
+        m = {"type": "array", "items": [json.loads(json.dumps(self.pick(self.TUPLE_POS[i]))) for i in range(L)]}
+        self.tags.add("tuple-len-%d" % L)
+        r = rnd.random()
+        if r < 0.45:
+            pass
+        elif r < 0.55:
+            m["additionalItems"] = True
+            self.tags.add("tuple-additional-true")
+        elif self.tuple_single:
+            pass
+        elif r < 0.8:
+            m["additionalItems"] = False
+            self.tuple_closed = True
+            self.tags.add("tuple-additional-false")
+        else:
+            m["additionalItems"] = self.pick([{"type": "string"}, {"type": "integer"}, {"type": "boolean"}])
+            self.tuple_closed = True
+            self.tags.add("tuple-additional-schema")
+        return m
 
     def scalar_composition(self, n):
         """type / enum restrictions and array item schemas at the top level."""
         rnd = self.rnd
         self.tags.add("non-object")
-        fam = self.pick(["types", "enum", "array", "tuple"])
+        self.tuple_single = False
+        self.tuple_closed = False
+        fam = self.pick(["types", "enum", "array", "tuple", "tuple"])
         self.tags.add("top-" + fam)
         out = []
         defs = {}
@@ -250,12 +314,35 @@ class CompGen:
                                    {"type": "array", "items": {"type": "object"}}, {"type": "array"}])
                 out.append(s)
             else:
-                s = self.pick([{"type": "array", "items": [{"type": "string"}, {"type": "integer"}], "minItems": 2, "maxItems": 2},
-                               {"type": "array", "items": [{"type": "string", "enum": ["red", "x"]}, {}], "minItems": 2, "maxItems": 2},
-                               {"type": "array", "minItems": 2, "maxItems": 2},
-                               {"type": "array", "items": [{"type": "string"}, {"type": "integer"}], "minItems": 2, "maxItems": 2}])
-                out.append(s)
-        if fam in ("array",) and rnd.random() < 0.4:
+                out.append(self.tuple_member(b))
+        if fam == "tuple":
+            # typify converts a tuple only when the MERGED schema has minItems == maxItems > 0 (else the schema is
+            # rejected: "unhandled array validation"); most compositions therefore fix the length k on one member
+            # (or split min / max over two members); the rest keep random or no bounds
+            k = rnd.randrange(1, 4)
+            r = rnd.random()
+            # a `$ref` member is a definition of its own and must convert alone: it then carries the fixed length
+            via_ref = rnd.random() < 0.35 and r < 0.7
+            if r < 0.7:
+                m = out[0] if via_ref else out[rnd.randrange(len(out))]
+                m["minItems"] = m["maxItems"] = k
+                self.tags.add("tuple-fixed-length")
+            elif r < 0.82 and len(out) >= 2:
+                i, j = rnd.sample(range(len(out)), 2)
+                out[i]["minItems"] = k
+                out[j]["maxItems"] = k
+                self.tags.add("tuple-min-max-split")
+            elif r < 0.92:
+                m = out[rnd.randrange(len(out))]
+                m[self.pick(["minItems", "maxItems"])] = k
+                self.tags.add("tuple-one-bound")
+            else:
+                self.tags.add("tuple-unbounded")
+            if via_ref:
+                defs["D0"] = out[0]
+                out[0] = {"$ref": "#/definitions/D0"}
+                self.tags.add("ref-member")
+        if fam == "array" and rnd.random() < 0.4:
             # a `$ref` member to an array definition (length keywords included since C09-F2 was fixed by 884aa7b)
             defs["D0"] = out[0]
             out[0] = {"$ref": "#/definitions/D0"}
@@ -441,7 +528,15 @@ def candidates(seed, comp):
                 add(w, "mutant:member-drop")
         if isinstance(v, list):
             add(v + v, "mutant:array-double")
-            add(v[:1], "mutant:array-one")
+            for k in range(len(v) + 1):
+                add(v[:k], "mutant:array-prefix")
+            for x in (1, "red", None, True, "zzz"):
+                add(v + [x], "mutant:array-extend")
+                add(v + [x, x], "mutant:array-extend")
+            for i in range(min(len(v), 3)):
+                for x in (1, "red", "zzz", None, True):
+                    if x != v[i]:
+                        add(v[:i] + [x] + v[i + 1:], "mutant:array-position")
     for g in GENERIC:
         add(g, "generic")
     return out
@@ -486,6 +581,7 @@ def finding_for(ctx, comp, what, kw_instance=None):
     br = [resolve(defs, b) for b in comp["branches"]]
     types = []
     items_meet = []
+    single_vs_closed = []
 
     def walk_types(a, b):
         """pairs of `type` keywords that meet at the same position of two branches"""
@@ -499,10 +595,21 @@ def finding_for(ctx, comp, what, kw_instance=None):
             types.append((ta if isinstance(ta, list) else [ta], tb if isinstance(tb, list) else [tb]))
         for p in set(a.get("properties", {})) & set(b.get("properties", {})):
             walk_types(a["properties"][p], b["properties"][p])
-        if isinstance(a.get("items"), dict) and isinstance(b.get("items"), dict):
-            if a["items"] != b["items"]:
+        ia, ib = a.get("items"), b.get("items")
+        if isinstance(ia, dict) and isinstance(ib, dict):
+            if ia != ib:
                 items_meet.append(1)
-            walk_types(a["items"], b["items"])
+            walk_types(ia, ib)
+        elif ia is not None and ib is not None and (isinstance(ia, list) or isinstance(ib, list)):
+            a0 = (ia[0] if ia else None) if isinstance(ia, list) else ia
+            b0 = (ib[0] if ib else None) if isinstance(ib, list) else ib
+            if a0 is not None and b0 is not None and a0 != b0:
+                items_meet.append(1)
+            # a single `items` schema next to a tuple that restricts its additionalItems (C09-F7)
+            for x, y in ((a, b), (b, a)):
+                if isinstance(x.get("items"), dict) and isinstance(y.get("items"), list) and \
+                        (y.get("additionalItems") is False or isinstance(y.get("additionalItems"), dict)):
+                    single_vs_closed.append(1)
     for x, y in itertools.combinations(br, 2):
         walk_types(x, y)
     for f in ctx.findings_for():
@@ -526,6 +633,39 @@ def finding_for(ctx, comp, what, kw_instance=None):
                     return any(has_empty(x) for x in v.values())
                 return False
             if inst is not None and has_empty(inst) and items_meet:
+                return f
+        if cls == "enum-emptied-by-type-filter":
+            hit = False
+            for x, y in itertools.permutations([b for b in br if isinstance(b, dict)], 2):
+                for k, px in (x.get("properties") or {}).items():
+                    py_ = (y.get("properties") or {}).get(k)
+                    if isinstance(px, dict) and isinstance(py_, dict) and "enum" in px and "type" not in px and "type" in py_:
+                        ty = py_["type"] if isinstance(py_["type"], list) else [py_["type"]]
+                        if not any((isinstance(v, str) and "string" in ty) or (v is None and "null" in ty) for v in px["enum"]):
+                            hit = True
+            if hit and len(comp["branches"]) >= 3 and what.startswith("permutation"):
+                return f
+        if cls == "oneof-scalar-branches-with-untyped-object-member":
+            has_scalar_oneof = any(isinstance(b, dict) and any(isinstance(x, dict) and x.get("type") not in (None, "object")
+                                                               for x in b.get("oneOf", [])) for b in br)
+            untyped = any(isinstance(b, dict) and "oneOf" not in b and "type" not in b and
+                          ("properties" in b or "required" in b) for b in br)
+            if has_scalar_oneof and untyped and len(comp["branches"]) >= 3:
+                return f
+        if cls == "required-name-dropped-by-closed-member":
+            closed = [b for b in br if isinstance(b, dict) and b.get("additionalProperties") is False]
+            for b in br:
+                if isinstance(b, dict):
+                    closed += [x for x in b.get("oneOf", []) if isinstance(x, dict) and x.get("additionalProperties") is False]
+            reqs = set()
+            for b in br:
+                if isinstance(b, dict):
+                    reqs |= set(b.get("required", []))
+            if len(comp["branches"]) >= 3 and what.startswith("permutation") and \
+                    any(k not in c.get("properties", {}) for c in closed for k in reqs):
+                return f
+        if cls == "single-items-vs-closed-tuple-never":
+            if single_vs_closed and what in ("valid-instance-rejected", "satisfiable-but-never"):
                 return f
         if cls == "deferred-additional-properties-conflict":
             if what.startswith("permutation") and len(comp["branches"]) >= 3 and \
